@@ -193,8 +193,17 @@ def job(args):
 def gen_smib(rng):
     x1 = round(rng.uniform(0.2, 0.6), 3)
     x2 = round(rng.uniform(0.2, 0.8), 3)
-    t_trip = round(rng.uniform(0.1, 0.6), rng.choice([1, 2, 4]))
-    t_close = round(t_trip + rng.uniform(0.05, 0.5), rng.choice([2, 3])) if rng.random() < 0.7 else -1.0
+    # "for every choice of line-switching times": on-grid, short decimals, and arbitrary doubles (thirds, 1/30 multiples)
+    def when(lo, hi):
+        k = rng.random()
+        x = rng.uniform(lo, hi)
+        if k < 0.35:
+            return round(x, rng.choice([1, 2, 4]))
+        if k < 0.55:
+            return round(x * 30) / 30.0
+        return x
+    t_trip = when(0.1, 0.6)
+    t_close = when(t_trip + 0.05, t_trip + 0.5) if rng.random() < 0.7 else -1.0
     return {'M': round(rng.uniform(3.0, 12.0), 2), 'D': rng.choice([0.0, 0.0, 1.0, 4.0]), 'xd1': round(rng.uniform(0.15, 0.4), 3),
             'x1': x1, 'x2': x2, 'P': round(rng.uniform(0.3, 0.9), 2), 'V1': rng.choice([1.0, 1.02, 1.05]), 'Vinf': 1.0,
             't_trip': t_trip, 't_close': t_close, 'tf': 2.0, 'method': rng.choice(['trapezoid', 'trapezoid', 'backeuler'])}
